@@ -70,14 +70,23 @@ class Violation(Exception):
 
 
 class Entry:
-    __slots__ = ("id", "kind", "obj", "snap", "base", "origin", "name")
+    __slots__ = ("id", "kind", "obj", "snap", "_base", "fp", "origin", "name")
 
     def __init__(self, id_, kind, obj, origin, name):
         from sim import digest as D
 
         self.id, self.kind, self.obj, self.origin, self.name = id_, kind, obj, origin, name
         self.snap = pickle.dumps(obj, protocol=pickle.HIGHEST_PROTOCOL)
-        self.base = D.canon(pickle.loads(self.snap))
+        self._base = None
+        self.fp = D.fingerprint(obj)
+
+    @property
+    def base(self):
+        """Canonical form of the snapshot (built on first use)."""
+        if self._base is None:
+            from sim import digest as D
+            self._base = D.canon(pickle.loads(self.snap))
+        return self._base
 
     def cols(self):
         d = getattr(self.obj, "data", None)
@@ -912,13 +921,21 @@ def run_history(tape, tier, opts):
             # swap: the same step with one argument replaced by a sibling of the same kind
             # (checked against the pristine process), then the original call once more --
             # what a cache keyed too coarsely gets wrong
-            if tape.chance(1, 3, "hist.swap"):
+            if tape.chance(1, 2, "hist.swap"):
                 cand = [(i, sib) for i, e in enumerate(ents) for sib in W.of(e.kind)
                         if sib.id != e.id and e.kind != "cnsfile"]
-                if cand:
+                ents_b, params_b = None, params
+                if tape.chance(1, 2, "hist.swap_redraw"):
+                    # the same operation with freshly drawn arguments AND options
+                    chosen = OPS[opname][0](W, tape, info)
+                    if chosen is not None and all(e is not None for e in chosen[0]):
+                        ents_b, params_b = list(chosen[0]), chosen[1]
+                elif cand:
                     i, sib = cand[tape.draw(len(cand), "hist.swap_which")]
                     ents_b = list(ents)
                     ents_b[i] = sib
+                if ents_b is not None:
+                    params, params_a = params_b, params
                     got_b = D.canon(_guarded(OPS[opname][1], [e.obj for e in ents_b], params, None))
                     want_b = ref.eval((opname, params, [e.snap for e in ents_b]))
                     d = D.diff(got_b, want_b)
@@ -927,6 +944,7 @@ def run_history(tape, tier, opts):
                                         f"{opname}({', '.join(e.name for e in ents_b)}; {pdesc}) right after the "
                                         f"same step on ({', '.join(e.name for e in ents)}) differs from the "
                                         f"pristine-process result: {d}")
+                    params = params_a
                     got_c = D.canon(_guarded(OPS[opname][1], objs, params, None))
                     d = D.diff(got_c, got)
                     if d:
@@ -1019,6 +1037,8 @@ def _check_args(W, D, opname, step):
     for e in W.entries:
         if e.kind == "cnsfile":
             continue
+        if e.fp is not None and D.fingerprint(e.obj) == e.fp:
+            continue  # bit-identical content: nothing to compare
         cur = D.canon(e.obj)
         d = D.diff(cur, e.base, rtol=0, atol=0)
         if d:
